@@ -22,6 +22,10 @@ def Op.time : Op → Nat
   | .fire _ t => t
   | .tick t => t
 
+def Op.isTick : Op → Bool
+  | .tick _ => true
+  | _ => false
+
 inductive Res where
   | pending
   | done (o : Outcome)
@@ -46,9 +50,10 @@ def viewOf (c : Call) : CallView :=
       | some (_, o) => .done o
       | none => .pending
     nsets := c.sets.length
-    depth := (if c.stackResp then 1 else 0) + (if c.stackTmo then 1 else 0)
-    timer := match c.timer with
-      | .none => 0 | .armed _ => 1 | .cancelled _ _ => 2 | .fired => 3
+    depth := match c.phase with
+      | .waitOpen => 1 | .live none => 1 | .live (some _) => 2 | .over _ => 0
+    timer := match c.phase with
+      | .live (some _) => 1 | .over (.cancelled _ _) => 2 | .over .fired => 3 | _ => 0
     lowerGot := c.lowerGot
     evtSet := c.evtSet }
 
@@ -56,7 +61,7 @@ def stepSt (s : FE) : Op → FE
   | .issue T t => s.issue T t
   | .openDone ok t => s.openDone ok t
   | .lower c o t => s.lower c o t
-  | .fire cs t => cs.foldl (fun s c => s.fire c t) s
+  | .fire cs t => s.fire cs t
   | .tick t => s.tick t
 
 def step (_ : Unit) (s : FE) (op : Op) : FE × Obs :=
@@ -112,6 +117,7 @@ def decObs : V → Option Obs
   whether its timer action ran.  The clauses are those of the property text. -/
 
 structure CallInfo where
+  cid : Nat
   issueT : Nat
   T : Nat
   preOpen : Bool
@@ -126,16 +132,12 @@ structure Acc where
   deriving Repr
 
 def Acc.after (a : Acc) : Op → Acc
-  | .issue T t => { a with infos := a.infos ++ [{ issueT := t, T := T, preOpen := a.openAt.isNone }] }
+  | .issue T t => { a with infos := a.infos ++ [{ cid := a.infos.length, issueT := t, T := T, preOpen := a.openAt.isNone }] }
   | .openDone _ t => if a.openAt.isNone then { a with openAt := some t } else a
   | .lower c o _ =>
-    match a.infos[c]? with
-    | some i => { a with infos := a.infos.set c { i with posts := i.posts ++ [o] } }
-    | none => a
+    { a with infos := a.infos.map (fun i => if i.cid = c then { i with posts := i.posts ++ [o] } else i) }
   | .fire cs _ =>
-    cs.foldl (fun a c => match a.infos[c]? with
-      | some i => { a with infos := a.infos.set c { i with fired := true } }
-      | none => a) a
+    { a with infos := a.infos.map (fun i => if cs.contains i.cid then { i with fired := true } else i) }
   | .tick _ => a
 
 /-- did the client finish opening too late for call `i` (K1: no timer exists until then)? -/
@@ -148,7 +150,6 @@ def openLate (a : Acc) (i : CallInfo) : Bool :=
 def specCall (a : Acc) (idx : Nat) (op : Op) (c : Nat) (i : CallInfo) (v : CallView) : Verdict :=
   let now := op.time
   let due := roundUp (i.issueT + i.T)
-  let isFire := match op with | .fire _ _ => true | _ => false
   if v.nsets > 1 then .fail "completed-twice" [V.ofNat idx, V.ofNat c]
   else
     match v.res with
@@ -156,7 +157,7 @@ def specCall (a : Acc) (idx : Nat) (op : Op) (c : Nat) (i : CallInfo) (v : CallV
       match i.first with
       | some _ => .fail "completion-undone" [V.ofNat idx, V.ofNat c]
       | none =>
-        if i.T > 0 && (decide (now > due) || (decide (now = due) && !isFire)) then
+        if i.T > 0 && (decide (now > due) || (decide (now = due) && op.isTick)) then
           .fail "deadline-bound" [V.ofNat idx, V.ofNat c, .a (if openLate a i then "open-late" else "open-in-time")]
         else .ok
     | .done o =>
@@ -184,12 +185,14 @@ def specCalls (a : Acc) (idx : Nat) (op : Op) : Nat → List CallInfo → List C
   | c, i :: is, v :: vs => (specCall a idx op c i v).and (fun _ => specCalls a idx op (c + 1) is vs)
   | _, _, _ => .fail "call-count" [V.ofNat idx]
 
-/-- remember the first completed outcome of each call -/
+/-- remember the first completed outcome of a call -/
+def note1 (i : CallInfo) (v : CallView) : CallInfo :=
+  match i.first, v.res with
+  | none, .done o => { i with first := some o }
+  | _, _ => i
+
 def noteFirst : List CallInfo → List CallView → List CallInfo
-  | i :: is, v :: vs =>
-    (match i.first, v.res with
-     | none, .done o => { i with first := some o }
-     | _, _ => i) :: noteFirst is vs
+  | i :: is, v :: vs => note1 i v :: noteFirst is vs
   | is, _ => is
 
 def specGo (a : Acc) (idx : Nat) : List (Op × Obs) → Verdict
@@ -210,10 +213,10 @@ def isOpenLate : Verdict → Bool
 /-! ### legal operation lists (hypotheses of the theorems) -/
 
 def armedBefore (s : FE) (t : Nat) : Bool :=
-  s.calls.any (fun c => match c.timer with | .armed due => decide (due < t) | _ => false)
+  s.calls.any (fun c => match c.phase with | .live (some due) => decide (due < t) | _ => false)
 
 def armedAtOrBefore (s : FE) (t : Nat) : Bool :=
-  s.calls.any (fun c => match c.timer with | .armed due => decide (due ≤ t) | _ => false)
+  s.calls.any (fun c => match c.phase with | .live (some due) => decide (due ≤ t) | _ => false)
 
 /-- time is monotone; the timer queue is punctual (C10: no armed timer is overdue when
     anything else happens); a timer action runs only when enabled; the environment answers
@@ -224,13 +227,12 @@ def opOk (s : FE) (op : Op) : Bool :=
    | .issue T _ => true && decide (T = 0 ∨ T ≥ 1)
    | .openDone _ _ => true
    | .lower c o t =>
-     (match s.calls[c]? with
-      | some cl => cl.lowerGot && (o != .timeout || decide (cl.T > 0 ∧ cl.issueT + cl.T ≤ t))
-      | none => false)
+     s.calls.any (fun cl => cl.cid == c) &&
+     s.calls.all (fun cl => cl.cid != c ||
+       (cl.lowerGot && (o != .timeout || decide (cl.T > 0 ∧ cl.issueT + cl.T ≤ t))))
    | .fire cs t =>
-     cs.all (fun c => match s.calls[c]? with
-      | some cl => cl.fireEnabled t
-      | none => false) && decide cs.Nodup
+     cs.all (fun c => s.calls.any (fun cl => cl.cid == c)) &&
+     s.calls.all (fun cl => !cs.contains cl.cid || cl.fireEnabled t)
    | .tick t => !armedAtOrBefore s t)
 
 def opsOk (s : FE) : List Op → Bool
